@@ -72,6 +72,11 @@ func init() {
 	exec := func(fr *frame, args []value) value {
 		q := normSQL(args[2])
 		err := nondetErr(fr, "Exec")
+		// INSERT may also fail with a uniqueness violation (the harness classifies it through
+		// vrt.Replace(isSQLiteConstraintError, ...) by the word "constraint")
+		if err.(iface).t != nil && strings.HasPrefix(q, "INSERT") && X.choose(2) == 1 {
+			err = fr.i.newErr("injected fault: constraint failed")
+		}
 		if err.(iface).t != nil {
 			event("Exec:err:%s", q)
 			return tuple{iface{}, err}
